@@ -233,11 +233,25 @@ def build(repo, w, constraint=None):
     summ["np.finfo"] = lambda *a, **k: _FInfo()
     summ["max"] = lambda *a, **k: (max(a) if len(a) > 1 else max(a[0]))
     summ["min"] = lambda *a, **k: (min(a) if len(a) > 1 else min(a[0]))
+    def _is_index(v):
+        return isinstance(v, int) and not isinstance(v, bool)
+
+    def get_sigma(i, res_old=None, weights=None, indices=None, *a, **k):
+        # the kernel covariance of particle i from the previous population: the roles of the arguments are what matters here
+        if not _is_index(i) or not isinstance(res_old, NumArr) or not isinstance(weights, NumArr):
+            raise Raised("TypeError(_get_sigma(particle index, previous population, weights, indices) called with (%s, %s, %s))" % (
+                type(i).__name__, type(res_old).__name__, type(weights).__name__))
+        return Tok("sigma")
+
+    def sigma_nn(me_, res_old=None, k_=None, *a, **k):
+        if not isinstance(res_old, NumArr) or not _is_index(k_):
+            raise Raised("TypeError(sigma_nearest_neighbours(previous population, particle index) called with (%s, %s))" % (type(res_old).__name__, type(k_).__name__))
+        return Tok("sigma")
     summ.update({
         "Parameter.random_sample": random_sample, "Parameter.density": density,
         "Loss._setParam": set_param, "Loss._setParamStateInput": set_param, "Loss.cost": cost, "Model.get_state_index": state_index,
         "np.random.choice": choice, "rmvnorm": rmvnorm, "dmvnorm": dmvnorm, "np.quantile": (lambda a, q, **k: w.qlog.append((len(list(a)), q, _quantile(a, q))) or w.qlog[-1][2]), "np.percentile": lambda a, q, **k: _quantile(a, q / 100.0),
-        "np.prod": lambda a, **k: _prod(a), "_get_sigma": lambda *a, **k: Tok("sigma"), "ABC.sigma_nearest_neighbours": lambda me_, *a, **k: Tok("sigma"),
+        "np.prod": lambda a, **k: _prod(a), "_get_sigma": get_sigma, "ABC.sigma_nearest_neighbours": sigma_nn,
         "logging.warn": lambda *a, **k: None, "logging.warning": lambda *a, **k: None, "logging.info": lambda *a, **k: None, "print": lambda *a, **k: None,
         "np.cov": lambda *a, **k: Tok("sigma"), "np.einsum": lambda *a, **k: Tok("sigma"),
     })
